@@ -75,6 +75,7 @@ fn ref_parse(s: &str) -> Option<(i64, i64)> {
                 let oh = num(&mut i, 2)?; let mut om = 0;
                 if i < b.len() && b[i] == b'\'' { i += 1; }
                 if i < b.len() && b[i].is_ascii_digit() { om = num(&mut i, 2)?; if i < b.len() && b[i] == b'\'' { i += 1; } }
+                if oh > 23 || om > 59 { return None; }
                 off = (oh * 3600 + om * 60) * if neg { -1 } else { 1 };
             }
             _ => return None,
@@ -82,6 +83,11 @@ fn ref_parse(s: &str) -> Option<(i64, i64)> {
     }
     if i != b.len() { return None; }
     let f = Fields { y, mo: v[0], d: v[1], h: v[2], mi: v[3], s: v[4], off };
+    // a date that exists (proleptic Gregorian), a time of day in range
+    let leap = y % 4 == 0 && (y % 100 != 0 || y % 400 == 0);
+    let dim = match f.mo { 2 => if leap { 29 } else { 28 }, 4 | 6 | 9 | 11 => 30, 1..=12 => 31, _ => return None };
+    // offsets: hours 00-23, minutes 00-59 (the property's domain; what lies beyond is library specific, see below)
+    if f.d < 1 || f.d > dim || f.h > 23 || f.mi > 59 || f.s > 59 || off.abs() >= 86400 || (off.abs() / 60 % 60 != off.abs() % 3600 / 60) { return None; }
     Some((epoch_of(&f), off))
 }
 
@@ -123,6 +129,24 @@ fn time_odt(epoch: i64, off: i64) -> Object {
 
 // ---------------------------------------------------------------- real parsers: ok(epoch, offset?) | err
 type Parsed = Result<Option<(i64, Option<i64>)>, (String, String)>;
+/// `TryFrom<DateTime> for DateTime<Local>` while the local zone is at `tz_off`: (instant, offset, civil fields) of the value
+fn parse_chrono_in_zone(o: &Object, tz_off: i64) -> Result<Option<(i64, i64, [i64; 6])>, (String, String)> {
+    std::env::set_var("TZ", posix_tz(tz_off));
+    let o2 = o.clone();
+    let r = std::thread::spawn(move || {
+        crate::ctx::install_panic_hook();
+        guard(|| {
+            use chrono::prelude::*;
+            o2.as_datetime().and_then(|d| DateTime::<Local>::try_from(d).ok()).map(|d| {
+                let n = d.naive_local();
+                (d.timestamp(), d.offset().local_minus_utc() as i64,
+                 [n.year() as i64, n.month() as i64, n.day() as i64, n.hour() as i64, n.minute() as i64, n.second() as i64])
+            })
+        })
+    }).join().unwrap_or(Err(("thread".into(), "join".into())));
+    std::env::set_var("TZ", "UTC");
+    r
+}
 fn parse_chrono(o: &Object) -> Parsed {
     guard(|| { use chrono::prelude::*; o.as_datetime().and_then(|d| DateTime::<Local>::try_from(d).ok()).map(|d| (d.timestamp(), None)) })
 }
@@ -241,7 +265,7 @@ pub fn run(c: &mut Ctx) {
     c.rule = "all 2879 UTC offsets -23:59..+23:59 at a fixed instant (exhaustive in both tiers) x 3 offset-carrying producers \
 (chrono DateTime<Local> via TZ on a fresh thread, jiff Zoned, time OffsetDateTime) x 3 parsers = 9 ordered backend pairs, plus the two UTC \
 producers (Z form) x 3 parsers; sampled (instant, offset) pairs over years 0001-9999 incl. leap days, year/century boundaries and the ends of \
-the range; the specification's date-only, minute-precision and Z examples through all three backends; From<time::Time> for 96 times of day; as_datetime on arbitrary objects. Non-trivial = offset != 0 or \
+the range; the specification's date-only, minute-precision and Z examples through all three backends; dates and times that do not exist (30 February, 29 February of common years, month 13, hour 24 …) in four forms; chrono's DateTime<Local> under three local zones (instant, offset, civil fields); From<time::Time> for 96 times of day; as_datetime on arbitrary objects. Non-trivial = offset != 0 or \
 year < 1000 or a malformed object; distinct by (instant, offset) / request.".into();
     std::env::set_var("TZ", "UTC");
     // ---------------------------------------------------------------- all offsets at a fixed instant
@@ -282,6 +306,76 @@ year < 1000 or a malformed object; distinct by (instant, offset) / request.".int
         c.nontrivial(&format!("{} {}", e, off));
         check_pair(c, e, off, "sampled");
         if i < 3 { let f = fields_of(e, off); c.sample(json!({"stream": "sampled", "epoch": e, "offset_s": off, "date_string": ref_format(&f)})); }
+    }
+    // ---------------------------------------------------------------- chrono: the value in the LOCAL zone
+    // what `TryFrom<DateTime> for DateTime<Local>` returns is compared completely: instant, offset (the zone's, not the
+    // string's) and civil fields, with the local zone at +00:00, +05:30 and -08:00
+    {
+        let zones: [(&str, i64); 3] = [("chrono_utc0", 0), ("chrono_p0530", 19800), ("chrono_m0800", -28800)];
+        let n = c.n(120, 2000);
+        for i in 0..n {
+            let Some(mut r) = c.case("chrono_zone", i) else { continue };
+            let e = (days_from_civil(2, 1, 1) * 86400 + r.below(((days_from_civil(9998, 12, 30) - days_from_civil(2, 1, 1)) * 86400) as u64) as i64).clamp(min_e, max_e);
+            let off = r.range(-(23 * 60 + 59), 23 * 60 + 59) * 60;
+            let f = fields_of(e, off);
+            let o = Object::string_literal(if r.chance(1, 4) { ref_format_z(&fields_of(e, 0)) } else { ref_format(&f) });
+            let (zname, zoff) = *r.pick(&zones);
+            c.nontrivial(&format!("zone {} {} {}", e, off, zoff));
+            let res = parse_chrono_in_zone(&o, zoff);
+            let rep = match &res { Ok(Some((ts, lo, fl))) => format!("ok {} {} {} {} {} {} {} {}", ts, lo, fl[0], fl[1], fl[2], fl[3], fl[4], fl[5]),
+                                   Ok(None) => "err".into(), Err((site, _)) => format!("panic {}", site) };
+            c.corr(format!("c18.parse {} {}", zname, show_obj(&o)), rep.clone());
+            c.count(&format!("chrono_zone.{}", zname));
+            let lf = fields_of(e, zoff);
+            match &res {
+                Ok(Some((ts, lo, fl))) if *ts == e && *lo == zoff && *fl == [lf.y, lf.mo, lf.d, lf.h, lf.mi, lf.s] => {}
+                _ => c.oracle_fail("chrono-local", "DateTime<Local> is not the parsed instant expressed in the local zone",
+                        json!({"text": obj_text(&o), "zone_offset_s": zoff, "expected_epoch": e, "got": rep})),
+            }
+        }
+    }
+    // ---------------------------------------------------------------- dates that do not exist
+    {
+        let mut bad: Vec<String> = vec![];
+        for (y, mo, d) in [(2023, 2, 30), (2023, 2, 29), (1900, 2, 29), (2100, 2, 29), (2023, 4, 31), (2023, 6, 31), (2023, 9, 31), (2023, 11, 31),
+                           (2024, 2, 30), (2024, 13, 1), (2024, 0, 10), (2024, 1, 0), (2024, 1, 32), (2000, 2, 30)] {
+            bad.push(format!("D:{:04}{:02}{:02}", y, mo, d));
+            bad.push(format!("D:{:04}{:02}{:02}120000Z", y, mo, d));
+            bad.push(format!("D:{:04}{:02}{:02}120000+05'30'", y, mo, d));
+            bad.push(format!("D:{:04}{:02}{:02}1200-08'00'", y, mo, d));
+        }
+        for t in ["D:20240229240000Z", "D:20240229126000Z", "D:20240229120061Z", "D:20240229120000+05'60'", "D:20240229120000-26'00'"] { bad.push(t.into()); }
+        let good = ["D:20000229", "D:20240229", "D:24000229120000Z", "D:00040229000000+00'00'", "D:20231231235959-23'59'"];
+        for (i, text) in bad.iter().map(|s| s.as_str()).chain(good.iter().cloned()).enumerate() {
+            let Some(_r) = c.case("validity", i as u64) else { continue };
+            let o = Object::string_literal(text);
+            c.nontrivial(text);
+            let reference = ref_parse(text);
+            for (pname, p) in [("chrono", parse_chrono as fn(&Object) -> Parsed), ("jiff", parse_jiff), ("time", parse_time)] {
+                let r = p(&o);
+                c.corr(format!("c18.parse {} {}", pname, show_obj(&o)), show_parsed(&r));
+                c.count(&format!("validity.{}.{}", pname, if matches!(r, Ok(Some(_))) { "accepted" } else { "rejected" }));
+                match (&r, reference) {
+                    (Err((site, msg)), _) => c.oracle_fail(&format!("panic@{}", site), msg, json!({"text": text})),
+                    (Ok(Some(_)), None) => c.oracle_fail(&format!("validity:{}", pname), "a date or time that does not exist was accepted", json!({"text": text, "got": show_parsed(&r)})),
+                    (Ok(None), Some(_)) => c.oracle_fail(&format!("validity-err:{}", pname), "an existing date was rejected", json!({"text": text})),
+                    (Ok(Some((e, _))), Some((re, _))) if *e != re => c.oracle_fail(&format!("validity-instant:{}", pname), "wrong instant", json!({"text": text, "got": show_parsed(&r)})),
+                    _ => {}
+                }
+            }
+        }
+    }
+    // offsets beyond the property's ±23:59: chrono's FixedOffset ends before 24:00, jiff's and time's offsets reach 25:59 —
+    // outside the property, compared with the model only (and counted)
+    // likewise a leap second `60`: chrono and jiff read it as second 59, time rejects it; no producer prints it
+    for (i, text) in ["D:20240229120000+24'00'", "D:20240229120000-25'59'", "D:20240229120000+25'00'", "D:20240229120060Z", "D:20161231235960+00'00'"].iter().enumerate() {
+        let Some(_r) = c.case("wide_offset", i as u64) else { continue };
+        let o = Object::string_literal(*text);
+        for (pname, p) in [("chrono", parse_chrono as fn(&Object) -> Parsed), ("jiff", parse_jiff), ("time", parse_time)] {
+            let r = p(&o);
+            c.corr(format!("c18.parse {} {}", pname, show_obj(&o)), show_parsed(&r));
+            c.count(&format!("wide_offset.{}.{}", pname, if matches!(r, Ok(Some(_))) { "accepted" } else { "rejected" }));
+        }
     }
     // ---------------------------------------------------------------- forms given in the specification
     let spec_forms: [(&str, bool); 8] = [("D:199812231952-08'00'", true), ("D:20040229", true), ("D:20240229123456+05'30'", true), ("D:20240229123456Z", true),
